@@ -325,3 +325,31 @@ func (p *Prog) cname(f *ssa.Function) string {
 	p.cnameMemo[f] = parent + name
 	return parent + name
 }
+
+// deferredCallTo: a Defer in f that, when it runs, calls the function `key`: either `defer key(...)` directly or a
+// deferred closure whose every path calls it. Returns the Defer and the call whose arguments matter.
+func (p *Prog) deferredCallTo(f *ssa.Function, key string) (*ssa.Defer, ssa.CallInstruction) {
+	var d0 *ssa.Defer
+	var c0 ssa.CallInstruction
+	allInstrs(f, func(i ssa.Instruction) {
+		d, ok := i.(*ssa.Defer)
+		if !ok {
+			return
+		}
+		if sc := d.Call.StaticCallee(); sc != nil && p.inScope[sc] && p.fnKey(sc) == key {
+			d0, c0 = d, d
+			return
+		}
+		if mc, ok := d.Call.Value.(*ssa.MakeClosure); ok {
+			fn := mc.Fn.(*ssa.Function)
+			cs := p.callsTo(fn, key+" ", false)
+			if len(cs) == 1 && p.mustPass(fn.Blocks[0].Instrs[0], func(j ssa.Instruction) bool { return j == cs[0].(ssa.Instruction) }, false) == nil {
+				d0, c0 = d, cs[0]
+			}
+			if len(cs) == 1 && fn.Blocks[0].Instrs[0] == cs[0].(ssa.Instruction) {
+				d0, c0 = d, cs[0]
+			}
+		}
+	})
+	return d0, c0
+}
